@@ -50,6 +50,22 @@ class SigchldHelper:
             _ = os.read(self._read_pipe, 4096)
         return self._extract_any()
 
+    def discard_unknown(self, known_pids) -> None:
+        """
+        Drops the recorded return codes of children that are not in
+        `known_pids`. The handler reaps every child of this process, including
+        ones Conductor did not launch; a stale entry must not be taken for the
+        return code of a task that is later forked with the same (recycled) pid.
+        """
+        # N.B. The handler may append to the list at any time; entries are only
+        # ever removed here (and in `_extract_any()`), one at a time.
+        idx = 0
+        while idx < len(self._returncodes):
+            if self._returncodes[idx][0] in known_pids:
+                idx += 1
+            else:
+                del self._returncodes[idx]
+
     def _add_returncode(self, pid: int, returncode: int) -> None:
         self._returncodes.append((pid, returncode))
 
